@@ -18,7 +18,13 @@
 //	               it a rescan enqueues RescanFinished only); consumes the ClientConnected notification(s)
 //	                                                                       -> ok starts=<n> failed=<m> cc=<c>
 //	rescan <k>     fake chain grows by k blocks; Rescan from the previous tip; the consumer is IDLE until the rescan
-//	               goroutine has made its last RPC (else: producer-blocked)    -> ok len=<len(Notifications())>
+//	               goroutine is through (nb=0: it has returned — WaitForShutdown; nb=1: it has made its last RPC); no
+//	               progress for 45 s: producer-blocked                        -> ok len=<len(Notifications())> | busy
+//	               ONE PRODUCER AT A TIME: every Rescan runs in a goroutine of its own and the queue preserves ENQUEUE
+//	               order, so the expected sequence is only determined if rescan i has enqueued its RescanFinished before
+//	               rescan i+1 starts.  nb=0: exact barrier.  nb=1: a (c)rescan is refused (`busy`, no effect) while more
+//	               than 20 notifications are pending, and otherwise starts only after everything pending — including the
+//	               previous RescanFinished — is visibly in the out-buffer.
 //	crescan <k>    same, but a slow consumer receives concurrently until everything pending has arrived
 //	                                                                       -> ok got=<n> len=..
 //	recv           <-Notifications()                    -> got fbc|bc|fin <h> len=.. | got cc | empty len=..
@@ -28,7 +34,7 @@
 //
 //	storm fail=<f> nb=<0|1> rounds=<r> m=<m> k=<k>
 //	               fresh client as in `new`; r times: m rescans of k blocks each with an idle consumer, then everything
-//	               pending is received                                          -> ok n=<number received>
+//	               pending is received (nb=1: m must be 1)                       -> ok n=<number received>
 //	               nb=1 m=1 k<=9: bursts of back-to-back pairs that fit the 20-slot buffer (the overflow list is never
 //	               used); nb=0 k=1 m>20: single notifications ~1 ms apart that spill into the overflow list.
 //
@@ -61,8 +67,11 @@ import (
 )
 
 const (
-	longWait   = 3 * time.Second
-	shortWait  = 6 * time.Millisecond
+	// Something that MUST happen is awaited this long (a starved machine — 16 busy loops on one core — can delay a
+	// runnable goroutine by seconds); waits return as soon as the thing happens, so the bound costs nothing on a
+	// healthy run.  The wait for the producer is progress-based on top of that (see awaitProducer).
+	longWait   = 45 * time.Second
+	shortWait  = 6 * time.Millisecond // something that must NOT happen is only watched briefly: never a false alarm
 	brokenWait = 80 * time.Millisecond
 	queueCap   = 20 // NewConcurrentQueue(20) in (*BitcoindConn).NewBitcoindClient
 )
@@ -89,7 +98,7 @@ func (engine) Generate(rng *rand.Rand, tier string) []core.Case {
 	cases = append(cases,
 		core.Case{Ops: []string{"storm fail=1 nb=1 rounds=14 m=1 k=9"}, Tags: []string{"storm", "storm-pairs-within-buffer", "fail=1"}},
 		core.Case{Ops: []string{"storm fail=1 nb=0 rounds=2 m=27 k=1"}, Tags: []string{"storm", "storm-singles-overflow", "fail=1"}},
-		core.Case{Ops: []string{"storm fail=2 nb=1 rounds=2 m=2 k=20"}, Tags: []string{"storm", "storm-pairs-overflow", "fail=2"}},
+		core.Case{Ops: []string{"storm fail=2 nb=1 rounds=3 m=1 k=35"}, Tags: []string{"storm", "storm-pairs-overflow", "fail=2"}},
 		core.Case{Ops: []string{"storm fail=0 nb=1 rounds=2 m=1 k=30"}, Tags: []string{"storm", "storm-pairs-overflow", "fail=0"}})
 	for _, f := range []int{1, 0, 2} {
 		ops := []string{fmt.Sprintf("new fail=%d nb=1", f), "rescan 30"}
@@ -124,7 +133,16 @@ func (engine) Generate(rng *rand.Rand, tier string) []core.Case {
 			if nb == 0 {
 				rescanP = 45 // one notification per rescan only
 			}
-			switch p := rng.Intn(100); {
+			p := rng.Intn(100)
+			if nb == 1 && pending > queueCap && p < rescanP+6 {
+				if rng.Intn(8) == 0 {
+					ops = append(ops, fmt.Sprintf("rescan %d", 1+rng.Intn(5))) // refused: `busy`
+					tags["busy"] = true
+					continue
+				}
+				p = 50 // receive instead
+			}
+			switch {
 			case p < rescanP && blocks < maxBlocks:
 				k := 1 + rng.Intn(8)
 				if rng.Intn(3) == 0 {
@@ -179,7 +197,7 @@ func (engine) Generate(rng *rand.Rand, tier string) []core.Case {
 		cases = append(cases, core.Case{Ops: ops, Tags: tl})
 	}
 	cases = append(cases, core.Case{Ops: []string{"new fail=0 nb=1", "new fail=x nb=1", "new", "new fail=1", "new fail=9 nb=0", "new fail=1 nb=2", "recv", "storm fail=1",
-		"storm fail=1 nb=1 rounds=0 m=1 k=1", "new fail=1 nb=0", "rescan", "rescan 0", "rescan x", "frob", "recv 1",
+		"storm fail=1 nb=1 rounds=0 m=1 k=1", "storm fail=0 nb=1 rounds=1 m=2 k=1", "rescan 30", "rescan 2", "recv", "new fail=1 nb=0", "rescan", "rescan 0", "rescan x", "frob", "recv 1",
 		"crescan", "rescan 2", "recv"}, Tags: []string{"malformed"}})
 	return cases
 }
@@ -197,6 +215,7 @@ type fakeBitcoind struct {
 
 	warmup       atomic.Int32 // number of getblockchaininfo calls still to be answered with -28
 	verboseCalls atomic.Int64 // number of answered `getblockheader <hash> true` calls
+	calls        atomic.Int64 // number of requests received (progress indicator of the rescan goroutine)
 }
 
 func newFakeBitcoind() (*fakeBitcoind, error) {
@@ -258,6 +277,7 @@ func (f *fakeBitcoind) serve(w http.ResponseWriter, r *http.Request) {
 	rpcError := func(status, code int, msg string) {
 		reply(status, nil, map[string]interface{}{"code": code, "message": msg})
 	}
+	f.calls.Add(1)
 	f.mu.Lock()
 	defer f.mu.Unlock()
 	tip := len(f.headers) - 1
@@ -544,17 +564,53 @@ func (r *runner) rescanDone(before int64) bool { return r.f.verboseCalls.Load() 
 // the case are answered `skipped` (a queue with two workers corrupts its overflow list and sooner or later crashes the
 // process with a nil dereference inside container/list — there is nothing more to learn from running it further).
 // After the first violating case the remaining cases are skipped as a whole for the same reason.
-// awaitRescan: idle consumer — the producer must get through all k blocks on its own.
-func (r *runner) awaitRescan(before int64, k int) {
-	deadline := time.Now().Add(r.long())
-	for !r.rescanDone(before) {
-		if time.Now().After(deadline) {
-			r.v("producer-blocked", "rescan of %d blocks has not finished %v after it started: the rescan goroutine is stuck "+
+// awaitProducer: idle consumer — the rescan goroutine must get through all k blocks on its own.  The verdict is
+// progress-based: `producer-blocked` only if the goroutine has made no RPC for a whole longWait.
+//
+// nb=0 (no NotifyBlocks, hence no ntfnHandler goroutine in the client's WaitGroup): WaitForShutdown() returns exactly
+// when the rescan goroutine has returned, i.e. AFTER its `ChanIn() <- RescanFinished` completed — an exact barrier, so
+// consecutive rescans are sequential producers by construction.
+// nb=1: the barrier is not available (ntfnHandler lives until Stop); the goroutine's last RPC is observed instead and
+// the enqueue of RescanFinished that follows it is NOT — which is why `canRescan` only lets the next rescan start
+// once that RescanFinished is observably in the out-buffer or has been received.
+func (r *runner) awaitProducer(before int64, k int) {
+	var done chan struct{}
+	if !r.nb {
+		done = make(chan struct{})
+		c := r.c
+		go func() { c.WaitForShutdown(); close(done) }()
+	}
+	lastCalls, lastProgress := r.f.calls.Load(), time.Now()
+	for {
+		if r.nb && r.rescanDone(before) {
+			return
+		}
+		select {
+		case <-done: // nil (blocks forever) when nb=1
+			return
+		default:
+		}
+		if c := r.f.calls.Load(); c != lastCalls {
+			lastCalls, lastProgress = c, time.Now()
+		}
+		if time.Since(lastProgress) > r.long() {
+			r.v("producer-blocked", "rescan of %d blocks: the rescan goroutine has made no progress for %v — it is stuck "+
 				"enqueueing a notification while the consumer is idle (pending %d)", k, r.long(), r.pending())
 			return
 		}
 		time.Sleep(50 * time.Microsecond)
 	}
+}
+
+// canRescan: the harness may start the next producer only when the previous one has provably enqueued everything.
+// nb=0: always (exact barrier, or everything was received).  nb=1: when everything still pending sits in the 20-slot
+// out-buffer (then the previous RescanFinished, the last thing enqueued, is in there too) — with more than 20 pending
+// the tail is in the overflow list or still on its way, which cannot be told apart from outside.
+func (r *runner) canRescan() bool {
+	if !r.nb {
+		return true
+	}
+	return r.pending() <= queueCap && r.quiesce() == r.pending()
 }
 
 // recvOne receives one notification (waiting d) and runs the oracles on it.
@@ -580,7 +636,7 @@ func (r *runner) storm(rounds, m, k int) (string, string) {
 			if err != nil {
 				return "rescan-failed", ""
 			}
-			r.awaitRescan(before, k)
+			r.awaitProducer(before, k)
 		}
 		r.quiesce()
 		for r.pending() > 0 && len(r.viol) == 0 {
@@ -637,8 +693,8 @@ func (r *runner) exec(op string) (string, string) {
 			rounds, e3 = strconv.Atoi(kv["rounds"])
 			m, e4 = strconv.Atoi(kv["m"])
 			k, e5 = strconv.Atoi(kv["k"])
-			if e3 != nil || e4 != nil || e5 != nil || rounds <= 0 || m <= 0 || k <= 0 || rounds*m*k > 5000 {
-				return "bad-op", ""
+			if e3 != nil || e4 != nil || e5 != nil || rounds <= 0 || m <= 0 || k <= 0 || rounds*m*k > 5000 || (nb == 1 && m != 1) {
+				return "bad-op", "" // nb=1: one producer at a time, see canRescan
 			}
 		}
 		r.Close()
@@ -668,12 +724,18 @@ func (r *runner) exec(op string) (string, string) {
 		if r.stopped {
 			return "bad-op", "" // never generated
 		}
+		if r.nb && r.pending() > queueCap {
+			return "busy", "" // the previous rescan's RescanFinished is not observably enqueued yet
+		}
+		if !r.canRescan() {
+			return "busy", r.flush() // quiesce has reported `lost`
+		}
 		before, err := r.rescan(k)
 		if err != nil {
 			return "rescan-failed", ""
 		}
 		if f[0] == "rescan" {
-			r.awaitRescan(before, k)
+			r.awaitProducer(before, k)
 			return fmt.Sprintf("ok len=%d", r.quiesce()), r.flush()
 		}
 		// slow concurrent consumer: receive until everything pending has arrived
